@@ -160,8 +160,26 @@ TDecBig ==
        /\ Judge(e.canary = 1, l, e, "canaries intact")
     /\ UNCHANGED <<pk, hist>>
 
+(***************************************************************************)
+(* Associated data of 4 GiB and more cannot be interpreted either.  What   *)
+(* can be judged: under one key, nonce and message the tag is a MAC of the *)
+(* whole associated data, so two different lengths of zero AD give         *)
+(* different tags (2^-64), and a length below 64 KiB must equal the        *)
+(* specification's value outright.  hist keeps the EncHuge events.         *)
+(***************************************************************************)
+THuge == /\ Tr[l].e = "EncHuge"
+         /\ LET e == Tr[l] IN
+            /\ Judge(\A i \in 1..Len(hist) :
+                        (hist[i].mode = e.mode /\ hist[i].k = <<e.v>> /\ hist[i].ad # <<e.desc>>) => hist[i].out # e.out,
+                     l, e, "associated data of different length must change the tag")
+            /\ Judge(e.small < 0 \/ e.out = (IF e.mode = "siv" THEN SivEnc(Rep(e.v \div 8, 66), Rep(12, 36), Zeros(e.small), <<1, 2, 3, 4, 5>>)
+                                              ELSE AeadEnc(Rep(e.v \div 8, 66), Rep(12, 36), Zeros(e.small), <<1, 2, 3, 4, 5>>)),
+                     l, e, "specification value for the short associated data")
+            /\ hist' = Append(hist, [mode |-> e.mode, k |-> <<e.v>>, n |-> <<>>, ad |-> <<e.desc>>, m |-> <<>>, out |-> e.out])
+         /\ pk' = pk
+
 \* events of the other families (system-level traces): stuttering steps for this specification
-Own == {"Reset", "Enc", "Dec", "Packet", "DecTag", "CheckTag", "DecBig"}
+Own == {"Reset", "Enc", "Dec", "Packet", "DecTag", "CheckTag", "DecBig", "EncHuge"}
 TForeign == Tr[l].e \notin Own \cup {"Fault", "San", "Hang", "Garbled"} /\ UNCHANGED <<pk, hist>>
 
 Init == l = 1 /\ pk = NoPk /\ hist = <<>> /\ InitRegs
@@ -169,7 +187,7 @@ Init == l = 1 /\ pk = NoPk /\ hist = <<>> /\ InitRegs
 Next ==
     /\ l <= Len(Tr)
     /\ l' = l + 1
-    /\ (TReset \/ TEnc \/ TDec \/ TPacket \/ TDecTag \/ TCheckTag \/ TDecBig \/ TForeign)
+    /\ (TReset \/ TEnc \/ TDec \/ TPacket \/ TDecTag \/ TCheckTag \/ TDecBig \/ THuge \/ TForeign)
 
 Spec == Init /\ [][Next]_vars
 
